@@ -77,7 +77,7 @@ func ensureParentDirectory(fsys apkfs.FullFS, path string) error {
 }
 
 func mutateEmptyFile(fsys apkfs.FullFS, o *options.Options, mut types.PathMutation) error {
-	target := mut.Path
+	target := filepath.Clean(mut.Path)
 
 	if err := ensureParentDirectory(fsys, target); err != nil {
 		return fmt.Errorf("ensuring parent directory for %q: %w", target, err)
